@@ -7,6 +7,7 @@ mod par;
 mod props;
 mod query;
 mod session;
+mod sharma;
 mod wire;
 
 use session::Session;
